@@ -146,6 +146,11 @@ class Opaque:
         return "Opaque(%s)" % self.tag
 
 
+class PyList(tuple):
+    """A module-level (immutable here) Python LIST constant, held as a tuple
+    subclass so that isinstance(x, list/tuple) keeps its Python meaning."""
+
+
 class IntStr:
     """str(<int term>): the decimal text of an integer (compared by value)."""
 
